@@ -1,11 +1,116 @@
 (* Property C10 -- a serialized trajectory parses back to the same states and actions.
-   Statements only; proofs live in Proofs/C10_*.v.  (work in progress: the round-trip theorem is being proved) *)
+   Statements only; proofs live in Proofs/C10_*.v (on top of Proofs/C14_* and the reader theorems of C11).
+
+   Model: Model/Trajectory.v (TrajectoryExporter.export / MultiAgentTrajectoryExporter.export / TrajectoryParser) on
+          Model/State.v; triplets (previous state, operator(s), next state) are data.
+   Spec : calls are equal; states denote the same facts and valued fluents (Spec/State.State_same on Proofs/C14_Main.den);
+          the observation is a chain under the library's own == (Model.State.state_eq).
+   Hypotheses of the round trip, for a non-empty list of triplets t0 :: ts:
+     den_ok        of the first state and of every next state: clean names, repr/float round trip on the values that occur,
+                   and [parseable]: every predicate / function is declared in the domain with that arity, the objects are
+                   in the object table (when one is given; fluent arguments of the right type), NO FLUENT HAS A REPEATED
+                   ARGUMENT and no fluent occurs twice;
+     step_text_ok  the calls are clean tokens;
+     step_ok       every next state is labelled ':state' (is_init = False); a joint action has at most as many members as
+                   there are executing agents, and a member called nop has no arguments;
+     chain_from    each triplet's previous state denotes the preceding next state (only the first previous state is written).
+   Where the code deviates:
+     D07  fluents with a repeated argument            C10_roundtrip is the _partial statement (hypothesis [parseable]);
+                                                      C10_roundtrip_refuted is the witness;
+     D56  the empty trajectory cannot be exported     C10_export_empty_refuted. *)
 From Coq Require Import List Ascii String Bool PrimFloat.
-From Verif Require Import Base.Result Base.Str Base.Sexp Base.PyDict Base.Float Model.State Model.Trajectory Proofs.C10_Export.
+From Verif Require Import Base.Result Base.Str Base.Sexp Base.PyDict Base.Float Model.Tokenizer Model.Types Model.Domain
+  Model.State Model.Trajectory Spec.Pddl Spec.State
+  Proofs.C14_Text Proofs.C14_Spec Proofs.C14_Eq Proofs.C14_Main Proofs.C14_Serialize Proofs.C14_Examples
+  Proofs.C10_Export Proofs.C10_State Proofs.C10_Main Proofs.C10_Examples.
 Import ListNotations.
+
+(* the full statement the property asks for: no restriction on the fluents' arguments *)
+Definition C10_roundtrip_full_statement : Prop :=
+  forall dom num_text parse_num problem agents m t0 ts,
+    (forall s, In s (t_pre t0 :: map t_post (t0 :: ts)) ->
+       state_ok s = true /\ nums_clean num_text s /\ (forall x, In x (values s) -> num_ok num_text parse_num x) /\
+       Forall (fact_ok dom problem) (den_facts s) /\
+       (* fluent_ok without its NoDup clause *)
+       Forall (fun a => exists lifted, dget (d_funcs dom) (fst a) = Some lifted /\ List.length lifted = List.length (snd a))
+              (map fst (den_fluents s))) ->
+    Forall (step_text_ok num_text) (t0 :: ts) -> chain_from (t_post t0) ts ->
+    exists text tree O,
+      export_text num_text (t0 :: ts) = Ok text /\ parse m (s2t text) = Ok tree /\
+      parse_trajectory dom parse_num problem agents false tree = Ok O /\
+      Forall2 (fun t c => State_same (den (oc_next c)) (den (t_post t))) (t0 :: ts) (ob_components O).
+
+(* the exported text is read by the library's reader (C11) as the token tree of the trajectory *)
+Theorem C10_export_parses : forall num_text m t0 ts,
+  state_ok (t_pre t0) = true -> nums_clean num_text (t_pre t0) -> Forall (step_text_ok num_text) (t0 :: ts) ->
+  exists text, export_text num_text (t0 :: ts) = Ok text /\ parse m (s2t text) = Ok (traj_sexp num_text t0 ts).
+Proof. exact parse_export. Qed.
+
+(* parse_state on the token tree of a serialized state *)
+Theorem C10_state_roundtrip : forall dom num_text parse_num problem s,
+  state_ok s = true -> (forall x, In x (values s) -> num_ok num_text parse_num x) -> parseable dom problem s ->
+  exists s', parse_state dom parse_num problem (fluent_sexps num_text s ++ fact_sexps s) = Ok s' /\
+             st_init s' = false /\ State_same (den s') (den s).
+Proof. exact parse_state_items. Qed.
+
+(* the round trip: same length, same calls, same states, a chain; with the problem's object table (problem = Some objs:
+   the table is returned as is) or with objects deduced from the first state (problem = None); single calls and joint
+   actions with nop entries *)
+Theorem C10_roundtrip : forall dom num_text parse_num problem agents m t0 ts strict,
+  (strict = true -> st_init (t_pre t0) = true) ->
+  den_ok dom num_text parse_num problem (t_pre t0) -> nums_clean num_text (t_pre t0) ->
+  Forall (step_text_ok num_text) (t0 :: ts) -> Forall (step_ok dom num_text parse_num problem agents) (t0 :: ts) ->
+  chain_from (t_post t0) ts ->
+  exists text tree O,
+    export_text num_text (t0 :: ts) = Ok text /\ parse m (s2t text) = Ok tree /\
+    parse_trajectory dom parse_num problem agents strict tree = Ok O /\
+    List.length (ob_components O) = List.length (t0 :: ts) /\
+    Forall2 (fun t c => ocall_calls (oc_call c) = tact_calls (t_act t) /\
+                        State_same (den (oc_prev c)) (den (t_pre t)) /\
+                        State_same (den (oc_next c)) (den (t_post t))) (t0 :: ts) (ob_components O) /\
+    obs_chain num_text (ob_components O) /\
+    (forall objs, problem = Some objs -> ob_objects O = objs).
+Proof. exact roundtrip. Qed.
+
+(* D07: with a repeated fluent argument the parsed states are not the exported ones *)
+Theorem C10_roundtrip_refuted :
+  exists text tree O c,
+    export_text ex_num_text [d07_triplet] = Ok text /\ parse MFile (s2t text) = Ok tree /\
+    parse_trajectory d07_dom ex_parse_num None None false tree = Ok O /\ ob_components O = [c] /\
+    state_eq ex_num_text (oc_prev c) (t_pre d07_triplet) = false /\
+    state_eq ex_num_text (oc_next c) (t_post d07_triplet) = false.
+Proof. exact roundtrip_refuted. Qed.
+
+(* ... and the repeated argument is the only hypothesis the witness violates *)
+Theorem C10_roundtrip_refuted_class :
+  state_ok d07_state = true /\ nums_clean ex_num_text d07_state /\ ~ parseable d07_dom None d07_state.
+Proof. exact d07_violates_only_nodup. Qed.
 
 (* D56: an empty list of triplets cannot be exported (IndexError on triplets[0]) *)
 Theorem C10_export_empty_refuted : forall num_text, export num_text [] = Err EIndex.
 Proof. exact export_empty. Qed.
 
+(* the hypotheses are satisfiable: a two-step trajectory with a binary fluent, a 0-ary fact, an empty last state, negative
+   and fractional values; with and without object table; single-agent and joint with nop entries *)
+Theorem C10_example : forall problem, problem = None \/ problem = Some ex_objs ->
+  den_ok ex_dom ex_num_text ex_parse_num problem (t_pre ex_t0) /\ nums_clean ex_num_text (t_pre ex_t0) /\
+  Forall (step_text_ok ex_num_text) [ex_t0; ex_t1] /\
+  Forall (step_ok ex_dom ex_num_text ex_parse_num problem None) [ex_t0; ex_t1] /\
+  chain_from (t_post ex_t0) [ex_t1].
+Proof. exact ex_roundtrip_hypotheses. Qed.
+
+Theorem C10_example_joint : forall problem, problem = None \/ problem = Some ex_objs ->
+  den_ok ex_dom ex_num_text ex_parse_num problem (t_pre ex_j0) /\ nums_clean ex_num_text (t_pre ex_j0) /\
+  Forall (step_text_ok ex_num_text) [ex_j0; ex_j1] /\
+  Forall (step_ok ex_dom ex_num_text ex_parse_num problem (Some ["agent0"; "agent1"]%string)) [ex_j0; ex_j1] /\
+  chain_from (t_post ex_j0) [ex_j1].
+Proof. exact ex_roundtrip_hypotheses_joint. Qed.
+
+Print Assumptions C10_export_parses.
+Print Assumptions C10_state_roundtrip.
+Print Assumptions C10_roundtrip.
+Print Assumptions C10_roundtrip_refuted.
+Print Assumptions C10_roundtrip_refuted_class.
 Print Assumptions C10_export_empty_refuted.
+Print Assumptions C10_example.
+Print Assumptions C10_example_joint.
